@@ -483,7 +483,7 @@ def build_gfa1(r, opts=None):
         for e in extra:
             body.append(e)
         lines = body
-    return {"version": "gfa1", "lines": lines, "slen": slen}
+    return near_names(r, {"version": "gfa1", "lines": lines, "slen": slen}, p=o.get("near_names", 0.12))
 
 
 # ------------------------------------------------------------------ GFA2 documents
@@ -655,7 +655,36 @@ def build_gfa2(r, opts=None):
             lines.insert(r.randint(0, len(lines)), ["#", [choice(r, [" a comment", "nospace", "  two", ""])], []])
     if o["shuffle"] and chance(r, 0.5):
         r.shuffle(lines)
-    return {"version": "gfa2", "lines": lines, "slen": slen}
+    return near_names(r, {"version": "gfa2", "lines": lines, "slen": slen}, p=o.get("near_names", 0.12))
+
+
+def near_names(r, doc, p=0.3, suffixes=("L", "R", "L", "R", "_", "2", "^", "0")):
+    """With probability p rename one segment of the document to another segment's name plus a
+    suffix (A and AL, 7 and 7R, a and a_): names that collide once a library glues an end
+    type, an orientation, a counter or a separator onto an identifier.  The renaming is done
+    on the text model, so every mention follows."""
+    from . import model as M
+    if not fair(r, p):
+        return doc
+    m = M.ModelDoc.from_doc(doc)
+    segs = m.segment_names()
+    if len(segs) < 2:
+        return doc
+    a, b = choice(r, segs), choice(r, segs)
+    if a == b:
+        return doc
+    new = a + choice(r, list(suffixes))
+    if new.endswith("_") and len(segs) >= 3 and chance(r, 0.7):
+        # the name a merged segment a_c would get
+        new += choice(r, [x for x in segs if x not in (a, b)])
+    if new in set(m.names()) | m.undefined_mentions() or ("," in new):
+        return doc
+    m.rename(m.by_name(b), new)
+    doc["lines"] = [x.plain() for x in m.recs]
+    if "slen" in doc and b in doc["slen"]:
+        doc["slen"][new] = doc["slen"].pop(b)
+    doc["near_names"] = True
+    return doc
 
 
 def doc_text(doc):
